@@ -19,6 +19,11 @@ class RewriteError(Exception):
 def rewrite_sources(kind, pkgdir, work):
     out = {}
     hooked = False
+    if kind == "nohook":
+        # real clock, no schedule hook (race-detector stress): only tell the harness so
+        gen = os.path.join(work, "zz_verif_hookgen_test.go")
+        open(gen, "w").write("//go:build verif\n\npackage grpcgcp\n\nconst verifHookInstalled = false\n")
+        return {os.path.join(pkgdir, "zz_verif_hookgen_test.go"): gen}
     if kind != "vclock":
         raise RewriteError("unknown rewrite " + kind)
     for path in sorted(glob.glob(os.path.join(pkgdir, "*.go"))):
